@@ -29,7 +29,7 @@ pub struct Case {
 }
 
 pub const MAKE: [&str; 12] = ["make:client-credprops", "make:client-credprops-prf", "make:plain", "make:exclude-hit", "make:exclude-miss", "make:non-rk", "make:prf", "make:counter", "make:prf-uv-only-unverified", "make:bad-alg", "make:pin-auth", "make:uv-unconfigured"];
-pub const GET: [&str; 13] = ["get:counter-max", "get:counter-max-prf-no-secret", "get:client-prf", "get:allow", "get:no-list", "get:prf", "get:counterless", "get:prf-no-secret", "get:prf-uv-only-unverified", "get:pin-auth", "get:two-listed", "get:silent", "get:silent-prf"];
+pub const GET: [&str; 15] = ["get:two-listed-first-fails-late", "get:two-listed-first-fails-late-reversed", "get:counter-max", "get:counter-max-prf-no-secret", "get:client-prf", "get:allow", "get:no-list", "get:prf", "get:counterless", "get:prf-no-secret", "get:prf-uv-only-unverified", "get:pin-auth", "get:two-listed", "get:silent", "get:silent-prf"];
 pub const CODES: [u8; 6] = [0x00, 0x01, 0x28, 0x2E, 0x7F, 0xF0];
 
 fn seeds() -> Vec<Passkey> {
@@ -128,6 +128,10 @@ where
             "get:prf-uv-only-unverified" => (Some(vec![cred_id(1)]), Some(get_assertion::ExtensionInputs { hmac_secret: None, prf: Some(prf()) })),
             "get:pin-auth" => (Some(vec![cred_id(1)]), None),
             "get:two-listed" => (Some(vec![cred_id(2), cred_id(1)]), None),
+            // both listed credentials have counters; the one the store lists first has no PRF secret,
+            // so the ceremony fails after ITS counter write - the other credential must stay untouched
+            "get:two-listed-first-fails-late" => (Some(vec![cred_id(4), cred_id(5)]), Some(get_assertion::ExtensionInputs { hmac_secret: None, prf: Some(prf()) })),
+            "get:two-listed-first-fails-late-reversed" => (Some(vec![cred_id(5), cred_id(4)]), Some(get_assertion::ExtensionInputs { hmac_secret: None, prf: Some(prf()) })),
             "get:silent" => (Some(vec![cred_id(1)]), None),
             "get:silent-prf" => (Some(vec![cred_id(1)]), Some(get_assertion::ExtensionInputs { hmac_secret: None, prf: Some(prf()) })),
             _ => (None, None),
@@ -147,6 +151,10 @@ fn observe(c: &Case) -> Obs {
     // in any other way), alone and with a PRF step that fails after the counter write
     if c.request.starts_with("get:counter-max") {
         seeds[0] = seeded(&Seed { n: 1, rp: RP.into(), handle: Some(vec![1]), counter: Some(u32::MAX), hmac: if c.request.ends_with("no-secret") { None } else { Some(true) } });
+    }
+    if c.request.starts_with("get:two-listed-first-fails-late") {
+        seeds.push(seeded(&Seed { n: 4, rp: RP.into(), handle: Some(vec![4]), counter: Some(20), hmac: None }));
+        seeds.push(seeded(&Seed { n: 5, rp: RP.into(), handle: Some(vec![5]), counter: Some(30), hmac: Some(true) }));
     }
     if c.request == "get:prf-no-secret" {
         // credential 1 without PRF secrets
@@ -412,7 +420,7 @@ pub fn run(ctx: &Ctx) -> Result<Run, String> {
     }
     let mut run = Run::from_stats(
         "fault_enumeration",
-        "requests {make through the client with credProps (and prf), get through the client with prf; make: plain, exclude-list hit, exclude-list miss, non-rk, PRF, counter, PRF evaluation that fails late (verification-gated secrets, unverified ceremony), unsupported algorithm, pin-auth, verification unconfigured; get: allow list, no list, PRF, counter-less, PRF on a credential without secret, PRF that fails late, stored counter at 2^32-1 (with and without a late failure), pin-auth, two listed credentials, silent (up = uv = false, nothing reported) with and without PRF} x store stack {contract store, behind Arc<Mutex>, behind Arc<RwLock>} x fault plans over the faultable store calls (every single call x 6 status codes, every subset of >= 2 calls with KeyStoreFull; thorough: subsets x 6 codes and single faults x all 256 bytes) x cancellation after every k < polls-to-completion (every store call and the user step suspend once); plus cancellation-only runs on Arc<Mutex<MemoryStore>> and Arc<RwLock<Option<Passkey>>>. Oracle: store snapshot before/after against a model that applies only the calls that returned Ok, call log, result. Every (request, store, plan, cancellation point) is a distinct case",
+        "requests {make through the client with credProps (and prf), get through the client with prf; make: plain, exclude-list hit, exclude-list miss, non-rk, PRF, counter, PRF evaluation that fails late (verification-gated secrets, unverified ceremony), unsupported algorithm, pin-auth, verification unconfigured; get: allow list, no list, PRF, counter-less, PRF on a credential without secret, PRF that fails late, stored counter at 2^32-1 (with and without a late failure), pin-auth, two listed credentials, two listed credentials with counters of which the first fails after its counter write (both list orders), silent (up = uv = false, nothing reported) with and without PRF} x store stack {contract store, behind Arc<Mutex>, behind Arc<RwLock>} x fault plans over the faultable store calls (every single call x 6 status codes, every subset of >= 2 calls with KeyStoreFull; thorough: subsets x 6 codes and single faults x all 256 bytes) x cancellation after every k < polls-to-completion (every store call and the user step suspend once); plus cancellation-only runs on Arc<Mutex<MemoryStore>> and Arc<RwLock<Option<Passkey>>>. Oracle: store snapshot before/after against a model that applies only the calls that returned Ok, call log, result. Every (request, store, plan, cancellation point) is a distinct case",
         true,
         stats,
     );
